@@ -21,7 +21,7 @@ Print Assumptions C20_lex_token_position.
 (* a LexerError (t_error) reports the offending character and the line that character is on *)
 Theorem C20_lex_error_position : forall uw s its cls c l rem,
   lex_run uw s = (its, LError cls c l, rem) ->
-  cls = t_error_class /\ (exists r, rem = c :: r) /\ s = items_text its ++ rem
+  cls = t_error_class /\ (exists r, rem = c :: r) /\ s = (items_text its ++ rem)%list
   /\ l = (1 + count_nl (prefix (zlen (items_text its)) s))%Z.
 Proof. exact lex_error_position. Qed.
 Print Assumptions C20_lex_error_position.
